@@ -393,6 +393,16 @@ class Rl2dJoinRuns(Family):
                 yield {"lengths": list(ls)}
 
 
+def contract_ragged_remove_empty(n, VL, B, W, n_out, Le, Lv, ecell, vcell, rho):
+    """caller-visible contract of RunLengthRaggedArray.remove_empty_intervals on boundaries B(r, 0..VL(r)) and values W(r, 0..VL(r)-1), row by row:
+    rows stay rows, one boundary more than values per row, the first boundary of a row is kept, and every run with different boundaries keeps its
+    value, the VALUE of its start and its end, as run rho(r, c) of the new row.  Proved in RlRaggedRemoveEmpty (contract.*)."""
+    G = lambda r: z3.Implies(z3.And(0 <= r, r < n), z3.And(Le(r) == Lv(r) + 1, Lv(r) >= 0, ecell(r, z3.IntVal(0)) == B(r, z3.IntVal(0))))
+    A = lambda r, c: z3.Implies(z3.And(0 <= r, r < n, 0 <= c, c < VL(r), B(r, c) != B(r, c + 1)), z3.And(
+        0 <= rho(r, c), rho(r, c) < Lv(r), vcell(r, rho(r, c)) == W(r, c), ecell(r, rho(r, c)) == B(r, c), ecell(r, rho(r, c) + 1) == B(r, c + 1)))
+    return [n_out == n], [("ragged_remove_empty.rows", G, 1), ("ragged_remove_empty.kept-runs", A, 2)]
+
+
 def sym_rl_ragged(ctx, name="rr", kind="elem", min_rows=0):
     """a well-formed RunLengthRaggedArray over SpecRagged operands: n rows, row r has k_r = VL(r) >= 1 runs, boundaries B(r, 0..k_r) with
     B(r, 0) = 0 strictly increasing (so the row has B(r, k_r) >= 1 positions), values W(r, 0..k_r-1)"""
@@ -706,19 +716,19 @@ class RlRaggedRemoveEmpty(Family):
             e2._shape.lengths.get(r) == v2._shape.lengths.get(r) + 1, e2._shape.starts.get(r) == rk2(IS(r)), v2._shape.starts.get(r) == rk1(VS(r)),
             v2._shape.lengths.get(r) == rk1(VS(r + 1)) - rk1(VS(r))),
             pool=[r, r + 1, VL(r), IS(r), IS(r + 1), VS(r), VS(r + 1), n], live=[c])
-        ctx.prove("post.the first boundary of every row is kept", ED.get(e2._shape.starts.get(r)) == B(r, 0),
+        ctx.prove_then_assume("post.the first boundary of every row is kept", ED.get(e2._shape.starts.get(r)) == B(r, 0),
                   pool=[r, r + 1, IS(r), IS(r) + 1, irow(IS(r)), irow(IS(r)) + 1, rk2(IS(r)), n, z3.IntVal(0)], live=[c])
         # a kept run
         ctx.assume(B(r, c) != B(r, c + 1))
         t = rk1(p) - rk1(VS(r))
-        ctx.prove("post.a non-empty run keeps its value, as run number t = (kept runs of the row before it)",
+        ctx.prove_then_assume("post.a non-empty run keeps its value, as run number t = (kept runs of the row before it)",
                   z3.And(0 <= t, t < v2._shape.lengths.get(r), VD.get(v2._shape.starts.get(r) + t) == W(r, c)),
                   pool=[r, r + 1, c, c + 1, p, p + 1, VS(r), VS(r + 1), vrow(p), vrow(p) + 1, rk1(p), n, VS(n), nz1.cnt],
                   without=["masks cell by cell", "lemmaR", "lemmaF", "lemmaT"])
         ctx.prove_then_assume("lemma: boundary c+1 of row r is kept, as boundary number t+1 of the new row",
                               z3.And(M2(q + 1), rk2(q + 1) == rk2(IS(r)) + t + 1, pos2(rk2(q + 1)) == q + 1, irow(q + 1) == r),
                               pool=[r, r + 1, c, c + 1, q + 1, q + 2, IS(r), IS(r + 1), irow(q + 1), irow(q + 1) + 1, rk2(q + 1), p, VS(r), n, IS(n), nz2.cnt])
-        ctx.prove("post.a non-empty run keeps its end", ED.get(e2._shape.starts.get(r) + t + 1) == B(r, c + 1),
+        ctx.prove_then_assume("post.a non-empty run keeps its end", ED.get(e2._shape.starts.get(r) + t + 1) == B(r, c + 1),
                   pool=[r, c, c + 1, q + 1, IS(r), rk2(q + 1), irow(q + 1)])
         # its start: the previous kept boundary has the same value (constant along a stretch of empty runs)
         w = z3.Function(fresh_name("chg"), z3.IntSort(), z3.IntSort(), z3.IntSort(), z3.IntSort())
@@ -739,9 +749,19 @@ class RlRaggedRemoveEmpty(Family):
         ctx.prove_then_assume("lemma: no boundary strictly between the previous kept one and c+1 is kept, so the runs between are empty",
                               z3.Not(z3.And(pc <= ch, ch < c, B(r, ch) != B(r, ch + 1))),
                               pool=[r, ch, ch + 1, IS(r) + ch + 1, IS(r) + ch + 2, prevq, prevq + 1, q, q + 1, pc, c, VL(r)])
-        ctx.prove("post.a non-empty run keeps its start: the previous kept boundary has the value B(r, c)",
-                  z3.And(ED.get(e2._shape.starts.get(r) + t) == B(r, pc), B(r, pc) == B(r, c)),
-                  pool=[r, c, pc, prevq, IS(r), rk2(q + 1), rk2(q + 1) - 1, irow(prevq)])
+        ctx.prove_then_assume("post.a non-empty run keeps its start: the previous kept boundary has the value B(r, c)",
+                              z3.And(ED.get(e2._shape.starts.get(r) + t) == B(r, pc), B(r, pc) == B(r, c)),
+                              pool=[r, c, pc, prevq, IS(r), rk2(q + 1), rk2(q + 1) - 1, irow(prevq)])
+        # the contract as callers use it (same formulas): cells of the results addressed through the new geometries
+        ecell = lambda r_, t_: ED.get(e2._shape.starts.get(r_) + t_)
+        vcell = lambda r_, t_: VD.get(v2._shape.starts.get(r_) + t_)
+        rho_ = lambda r_, c_: rk1(VS(r_) + c_) - rk1(VS(r_))
+        ground, schemas = contract_ragged_remove_empty(n, VL, B, W, I(e2._shape.n_rows), e2._shape.lengths.get, v2._shape.lengths.get, ecell, vcell, rho_)
+        ctx.prove("contract.ground facts", z3.And(*ground), live=[r, c])
+        ctx.prove("contract." + schemas[0][0], schemas[0][1](r), pool=[r, r + 1, VL(r), IS(r), VS(r), VS(r + 1), n], live=[c],
+                  without=["masks cell by cell", "lemmaR", "lemmaF", "constant-or-change"])
+        ctx.prove("contract." + schemas[1][0], schemas[1][1](r, c), pool=[r, c, c + 1, p, VS(r), IS(r)],
+                  without=["masks cell by cell", "lemmaR", "lemmaF", "lemmaT", "constant-or-change"])
         ctx.prove("post.operands not modified", z3.BoolVal(st["inds"].writes == 0 and st["vals"].writes == 0))
 
     def concrete(self, case):
@@ -848,3 +868,113 @@ class RlRaggedRowSum(Family):
         return {"rows": [[1, 1, 2], [2], [3, 3]]}
 
     bounded_cases = RlRaggedRavel.bounded_cases
+
+
+def _stub_ragged_remove_empty(calls):
+    """RunLengthRaggedArray.remove_empty_intervals by its proved contract: fresh ragged results (SpecRagged) with the contract formulas as hypotheses,
+    after the call-site obligation that boundaries have one column more than values"""
+    from .specragged import SpecRagged, SpecShape
+
+    def stub(events, values):
+        c = cur()
+        n = events._shape.n
+        VL = values._shape.L
+        r0 = z3.Int(fresh_name("pre_r"))
+        c.prove("pre(remove_empty_intervals): one boundary more than values in every row", z3.And(values._shape.n == n, z3.Implies(z3.And(0 <= r0, r0 < n), events._shape.L(r0) == VL(r0) + 1)),
+                kind="pre", pool=[r0])
+        Lv = z3.Function(fresh_name("kept"), z3.IntSort(), z3.IntSort())
+        rho = z3.Function(fresh_name("rho"), z3.IntSort(), z3.IntSort(), z3.IntSort())
+        v2 = SpecRagged.symbolic(c, "v_out", n, lambda r: Lv(r), kind=values.kind, dtype=values.dtype)
+        e2 = SpecRagged.symbolic(c, "e_out", n, lambda r: Lv(r) + 1, kind="int")
+        B, W = events.cell, values.cell
+        ground, schemas = contract_ragged_remove_empty(n, VL, B, W, n, lambda r: Lv(r) + 1, Lv, e2.fn, v2.fn, rho)
+        for f in ground:
+            c.assume(f)
+        for nm, fn, ar in schemas:
+            c.assume_forall(nm, fn, arity=ar)
+        calls["remove_empty"] = dict(B=B, W=W, VL=VL, n=n, e2=e2, v2=v2, Lv=Lv, rho=rho)
+        return e2, v2
+    return stub
+
+
+@register
+class Rl2dStepSubset(Family):
+    """IndexableMixin._step_subset(step, indices, values) on the rows of a ragged run-length array (|step| = s symbolic): in every row, position q of the
+    result holds the value at source position q*s (step > 0) resp. len(row)-1-q*s (step < 0): it lies in an output run with that value.
+    q*s is MUL(q), // s is DIV (factored floor division); remove_empty_intervals enters through its proved contract; operands are SpecRagged.
+    Not covered: the statement that the last boundary of each result row is ceil(len(row)/s) (the 1-D family proves it; here it would need one more
+    induction in the callee's contract)."""
+    name = "IndexableMixin._step_subset"
+    qualname = "npstructures.runlengtharray:IndexableMixin._step_subset"
+    serves = ["C17"]
+    timeout_ms = 30000
+    assumed = ["floor division by s > 0 in factored form (MUL / DIV)", "callee contract RunLengthRaggedArray.remove_empty_intervals (proved: .../contract.*)",
+               "RaggedArray operations through their contracts (SpecRagged: x[..., -1], x[..., ::-1], column - x, x + scalar, x // scalar; audited)"]
+
+    def kinds(self):
+        return ["forward", "backward"]
+
+    def run(self, ctx, kind):
+        from npstructures.runlengtharray import RunLengthRaggedArray
+        from ..sym.arr import div_abstraction
+        st = sym_rl_ragged(ctx)
+        n, VL, B, W = st["n"], st["VL"], st["B"], st["W"]
+        ctx.assume_forall("B increasing (pairwise; lemma adjacent-sorted=>sorted)", lambda r_, a_, b_: z3.Implies(
+            z3.And(0 <= r_, r_ < n, 0 <= a_, a_ < b_, b_ <= VL(r_)), B(r_, a_) < B(r_, b_)), arity=3)
+        step = z3.Int("step")
+        ctx.assume(step > 0 if kind == "forward" else step < 0)
+        s = z3.simplify(abs(SInt(step)).t)
+        DIV, MUL = div_abstraction(ctx, s)
+        x, d = z3.Int("x"), z3.Int("d")
+        ctx.prove("lemma.MUL increasing.base", MUL(x) < MUL(x + 1), pool=[x, x + 1], kind="lemma")
+        ctx.prove("lemma.MUL increasing.step", z3.Implies(z3.And(d >= 0, MUL(x) < MUL(x + d + 1)), MUL(x) < MUL(x + d + 2)), pool=[x, x + d + 1, x + d + 2], kind="lemma")
+        ctx.assume_forall("MUL increasing (by induction)", lambda p_, q_: z3.Implies(p_ < q_, MUL(p_) < MUL(q_)), arity=2)
+        # for |step| == 1 the code skips the division: then MUL(x) == x is needed (MUL(x) == x*s by induction)
+        ctx.prove("lemma.MUL(x) == x*s.base", MUL(0) == 0 * s, kind="lemma")
+        ctx.prove("lemma.MUL(x) == x*s.step", z3.Implies(z3.And(x >= 0, MUL(x) == x * s), MUL(x + 1) == (x + 1) * s), pool=[x, x + 1], kind="lemma")
+        ctx.assume_forall("MUL(x) == x*s (by induction)", lambda x_: z3.Implies(x_ >= 0, MUL(x_) == x_ * s))
+        calls = {}
+        old = RunLengthRaggedArray.__dict__["remove_empty_intervals"]
+        RunLengthRaggedArray.remove_empty_intervals = staticmethod(_stub_ragged_remove_empty(calls))
+        try:
+            e_out, v_out = st["obj"]._step_subset(SInt(step), st["inds"], st["vals"])
+        finally:
+            RunLengthRaggedArray.remove_empty_intervals = old
+        re = calls["remove_empty"]
+        Iv, Wp, rho, e2, v2, Lv = re["B"], re["W"], re["rho"], re["e2"].fn, re["v2"].fn, re["Lv"]
+        ctx.prove("post.the result is remove_empty_intervals' output", z3.BoolVal(e_out is re["e2"] and v_out is re["v2"]))
+        r, q, u = z3.Int("r"), z3.Int("q"), z3.Int("u")
+        length = B(r, VL(r))
+        srcpos = MUL(q) if kind == "forward" else length - 1 - MUL(q)
+        ctx.skolem(z3.And(0 <= r, r < n, q >= 0, 0 <= u, u < VL(r), B(r, u) <= srcpos, srcpos < B(r, u + 1)))
+        i = u if kind == "forward" else VL(r) - 1 - u
+        lo_, hi_ = Iv(r, i), Iv(r, i + 1)
+        t = rho(r, i)
+        small = [r, q, q + 1, u, u + 1, i, i + 1, VL(r), VL(r) - u, VL(r) - u - 1, lo_, lo_ + 1, hi_, hi_ + 1, z3.IntVal(0)]
+        if z3.is_app(lo_) and lo_.num_args() == 1 and lo_.decl().eq(DIV):
+            small += [lo_.arg(0), hi_.arg(0)]
+        ctx.prove_then_assume("post.lemma: the divided run i of row r is [ceil(B'(i)/s), ceil(B'(i+1)/s)) and contains q; its value is W(r, u)",
+                              z3.And(lo_ <= q, q < hi_, Wp(r, i) == W(r, u)), pool=small)
+        ctx.prove("post.position q of row r lies in output run t = rho(r, i), which carries the source value",
+                  z3.And(0 <= t, t < Lv(r), e2(r, t) <= q, q < e2(r, t + 1), v2(r, t) == W(r, u)), pool=[r, i, i + 1, u, q])
+        ctx.prove("post.operands not modified", z3.BoolVal(st["inds"].writes == 0 and st["vals"].writes == 0))
+
+    def concrete(self, case):
+        from npstructures import RaggedArray
+        from npstructures.runlengtharray import RunLengthRaggedArray, RunLengthArray
+        rows, stp = case["rows"], case["step"]
+        rr = RunLengthRaggedArray.from_ragged_array(RaggedArray(rows))
+        i2, v2 = rr._step_subset(stp, rr._indices, rr._values)
+        for r, row in enumerate(rows):
+            ev, va = np.asarray(i2[r]), np.asarray(v2[r])
+            dense = np.repeat(va, np.diff(ev)).tolist() if len(va) else []
+            if dense != row[::stp]:
+                return {"msg": f"_step_subset({stp}) on rows {rows}: row {r} decodes to {dense}, expected {row[::stp]}", "sig": "wrong:rl2d-step_subset"}
+
+    def concretise(self, kind, model, ghost):
+        return {"rows": [[1, 1, 2, 3, 3], [4, 5, 5]], "step": 2 if kind == "forward" else -2}
+
+    def bounded_cases(self, tier, seed):
+        for case in RlRaggedRavel.bounded_cases(self, tier, seed):
+            for stp in (1, 2, 3, -1, -2):
+                yield {"rows": case["rows"], "step": stp}
